@@ -1104,7 +1104,7 @@ func ruleC09Elements(c *Ctx) {
 						tested = true
 					}
 					if ld, isLd := pair[0].(*ssa.UnOp); isLd {
-						if fa2, isFa := ld.X.(*ssa.FieldAddr); isFa && fa2.Field == fa.Field && fa2.X == fa.X {
+						if fa2, isFa := ld.X.(*ssa.FieldAddr); isFa && fa2.Field == fa.Field && sameVarValue(fa2.X, fa.X) {
 							tested = true
 						}
 					}
@@ -1749,6 +1749,7 @@ func ruleJSONNameConflicts(c *Ctx, rule string) {
 				c.R.Check(true, rule, "forType:properties[name]:shallower-wins", c.pos(mu), "of two fields with one JSON name the shallower one is kept", "")
 			}
 		}
+		ruleNameConflictScenarios(c, rule, m.fn, mu)
 		c.R.Check(byDepth, rule, "forType:properties[name]:dominant-field", c.pos(mu), "a JSON name that is already taken is resolved by the embedding depth of the two fields", "a field's schema is entered under its JSON name without looking whether the name is already taken and which of the two fields is shallower: for struct{ C int `json:\"c\"`; Inner } with Inner{ X string `json:\"c\"` } encoding/json emits the outer field, but the inferred property describes the inner one (the later field wins) and the name is listed twice in `required`")
 	})
 	c.R.Floor(rule, "entries of field schemas under their JSON name", n, 1)
@@ -1820,6 +1821,14 @@ func localStores(addr ssa.Value) []ssa.Value {
 		for _, r := range *a.Referrers() {
 			if st, ok := r.(*ssa.Store); ok && st.Addr == a {
 				out = append(out, st.Val)
+			}
+			// a struct variable filled field by field (composite literal)
+			if fa, ok := r.(*ssa.FieldAddr); ok && fa.Referrers() != nil {
+				for _, rr := range *fa.Referrers() {
+					if st, ok := rr.(*ssa.Store); ok && st.Addr == fa {
+						out = append(out, st.Val)
+					}
+				}
 			}
 		}
 	case *ssa.FieldAddr:
@@ -1903,4 +1912,19 @@ func (c *Ctx) testsPointerKind(v ssa.Value) bool {
 		}
 	}
 	return false
+}
+
+// sameVarValue: the two values are the same SSA value, or loads of one variable (a variable captured by a
+// closure lives in a cell and is loaded anew at every use).
+func sameVarValue(a, b ssa.Value) bool {
+	if a == b {
+		return true
+	}
+	la, ok1 := a.(*ssa.UnOp)
+	lb, ok2 := b.(*ssa.UnOp)
+	if !ok1 || !ok2 || la.Op != token.MUL || lb.Op != token.MUL {
+		return false
+	}
+	ca, cb := resolveCell(la.X), resolveCell(lb.X)
+	return ca != nil && ca == cb
 }
